@@ -111,6 +111,7 @@ class Interp:
         self.models = {}
         self.pattern_models = []
         self.trace_calls = True
+        self.cfg_fork = True         # treat cfg!(debug_assertions) as unknown (see exec_block)
         self.opaque_fns = set()      # in-crate functions to treat as opaque events (by name)
         self.stats = {'blocks': 0, 'calls': 0, 'paths': 0}
         self._flags_all = {}
@@ -1643,6 +1644,25 @@ class Interp:
                     outs = self.exec_block(fr, t['t'], st, visiting) + outs
                 return outs
             if k == 'switch':
+                lit_ = _literal_bool_switch(blk) if self.cfg_fork else None
+                if lit_ is not None:
+                    # `cfg!(debug_assertions)` (debug_assert!, `if cfg!(..)`) is a literal boolean in this build's MIR and the opposite
+                    # literal in an optimised build. Both profiles are explored so that every obligation holds in both: the path of
+                    # the other profile in full, and from this profile's path only the panics it adds (a debug-only block is taken to
+                    # have no effect but to panic, so its non-panicking continuations are those of the other profile's path).
+                    taken = t['o']
+                    for v, tgt in t['ts']:
+                        if int(v, 16) == lit_:
+                            taken = tgt
+                    others = [tgt for tgt in dict.fromkeys([tt for _, tt in t['ts']] + [t['o']]) if tgt != taken]
+                    if len(others) == 1:
+                        s_rel = st.clone()
+                        s_rel.notes.append(('cfg(debug_assertions)', 1 - lit_, t['loc']))
+                        outs_rel = self.exec_block(fr, others[0], s_rel, visiting)
+                        st.notes.append(('cfg(debug_assertions)', lit_, t['loc']))
+                        outs_dbg = self.exec_block(fr, taken, st, visiting)
+                        seen = {repr(o.val) for o in outs_rel if o.kind == 'panic'}
+                        return outs_rel + [o for o in outs_dbg if o.kind == 'panic' and repr(o.val) not in seen]
                 return self.switch(fr, t, st, visiting)
             if k == 'call':
                 return self.call_term(fr, t, st, visiting)
@@ -2065,6 +2085,21 @@ class CallCtx:
         st = st if st is not None else self.st
         st.events.append(('panic', msg, self.loc, self.fr.f['name']))
         return Outcome(st, 'panic', (msg, self.loc))
+
+
+def _literal_bool_switch(blk):
+    """value (0/1) of the literal boolean a block assigns to the local it then switches on, else None"""
+    t = blk['t']
+    d = t['d']
+    if not (d.get('pl') and not d['pl']['p']):
+        return None
+    l = d['pl']['l']
+    for s in blk['s']:
+        if s['k'] == 'assign' and s['pl']['l'] == l and not s['pl']['p'] and s['rv']['k'] == 'use' and s['rv']['op'].get('k') == 'int' and \
+                s['rv']['op']['ty'].get('k') == 'bool' and s.get('mac') in ('cfg', '$crate::cfg'):
+            # the literal is the expansion of `cfg!(..)` (the driver records the innermost macro of the statement's span)
+            return int(s['rv']['op']['v'], 16) & 1
+    return None
 
 
 def gargs_for(f, gargs):
